@@ -72,7 +72,7 @@ def crash_pairs(prog: dict, pairs: list[tuple[int, int]]) -> list[dict]:
 def schedule(prog: dict, seed: int, p_withhold: float = 0.15, p_sweep: float = 0.0, max_sweeps: int = 0,
              cancel_at: int = -1, early: int = 0, max_steps: int = 600, fifo_after: int = -1,
              signal_at: int = -1, signal_pers: bool = True, signals: int = 1, claim_sweep: bool = False,
-             region_at: int = -1, region: str = "r") -> dict:
+             region_at: int = -1, region: str = "r", hold: list | None = None) -> dict:
     """One seeded random delivery schedule: any visible message next, acks withheld with probability
     p_withhold (redelivered after a lock expiry), optional sweeps / cancel / spurious StartStage."""
     rng = random.Random(seed)
@@ -101,6 +101,10 @@ def schedule(prog: dict, seed: int, p_withhold: float = 0.15, p_sweep: float = 0
                     continue
                 break
             vis = [r for r in rows if not r["locked"] and not r["delayed"] and r["att"] < r["max"]]
+            if hold:    # stragglers: messages of this (type, stage) are delivered only when nothing else can move
+                # (virtual time: a delay elapses only when nothing is visible, so a straggler outlasts the VISIBLE others only)
+                rest = [r for r in vis if not (r["typ"] == hold[0] and r["key"][1] == hold[1])]
+                vis = rest or vis
             locked = [r for r in rows if r["locked"]]
             if max_sweeps > sweeps and rng.random() < p_sweep:
                 run.sweep()
@@ -133,7 +137,7 @@ def schedule(prog: dict, seed: int, p_withhold: float = 0.15, p_sweep: float = 0
                              "opts": {"p_withhold": p_withhold, "p_sweep": p_sweep, "max_sweeps": max_sweeps,
                                       "cancel_at": cancel_at, "early": early, "max_steps": max_steps,
                                       "fifo_after": fifo_after, "signal_at": signal_at, "signal_pers": signal_pers,
-                                      "signals": signals, "claim_sweep": claim_sweep, "region_at": region_at, "region": region}})
+                                      "signals": signals, "claim_sweep": claim_sweep, "region_at": region_at, "region": region, "hold": hold}})
     finally:
         run.close()
 
